@@ -110,6 +110,7 @@ type SpecFunc struct {
 	File   string
 	Line   int
 	Pkg    string // import path of the package whose contract file declares it
+	Opaque bool   // uninterpreted unless the root under proof says "reveal <name>"
 }
 
 type Axiom struct {
@@ -145,7 +146,7 @@ var clauseKeywords = map[string]bool{
 	"ghost": true, "assigns": true, "modular": true, "inline": true, "trusted": true,
 	"mode": true, "alloc_bound": true, "pure": true, "protected_by": true, "immutable": true,
 	"inv": true, "opaque": true, "havoc": true, "noinline": true, "bounded": true, "returns_fresh": true,
-	"sweep": true, "cover": true, "replay_hint": true, "never_writes": true, "frame_only": true,
+	"sweep": true, "cover": true, "replay_hint": true, "never_writes": true, "frame_only": true, "reveal": true,
 }
 
 // ParseContractFile reads one file and adds its declarations to cs. pkgKey is
@@ -186,6 +187,7 @@ func (cs *ContractSet) ParseContractFile(path string, pkgPath string) error {
 	}
 	var cur *FuncContract
 	var curType *TypeContract
+	var lastSpec *SpecFunc
 	for _, l := range lines {
 		word, rest := splitWord(l.text)
 		mkClause := func(s string) (Clause, error) {
@@ -276,6 +278,7 @@ func (cs *ContractSet) ParseContractFile(path string, pkgPath string) error {
 			}
 			sf.File, sf.Line, sf.Pkg = path, l.no, pkgPath
 			cs.Specs[sf.Name] = sf
+			lastSpec = sf
 		case "axiom":
 			cur, curType = nil, nil
 			k := strings.Index(rest, ":")
@@ -299,6 +302,10 @@ func (cs *ContractSet) ParseContractFile(path string, pkgPath string) error {
 			cs.Axioms = append(cs.Axioms, &Axiom{Name: name, Clause: c, Syms: syms})
 			cs.Trusted = append(cs.Trusted, fmt.Sprintf("axiom %s (%s:%d)", name, path, l.no))
 		default:
+			if word == "opaque" && cur == nil && lastSpec != nil {
+				lastSpec.Opaque = true
+				continue
+			}
 			if cur == nil {
 				return fmt.Errorf("%s:%d: clause %q outside func", path, l.no, word)
 			}
